@@ -664,7 +664,7 @@ class _Grouper(AsyncIterator[T_co], Generic[R, T_co]):
             raise StopAsyncIteration
         await state.maybe_step()
         # the step advanced the iterator to another group
-        if self._target_key != state.current_key:
+        if not (self._target_key == state.current_key):
             raise StopAsyncIteration
         return state.consume_value()
 
